@@ -20,7 +20,7 @@ func (s *SimpleLabelFilterPlanner) Process(ctx *shared.PlannerContext) (sql.ISel
 		return nil, err
 	}
 
-	id := fmt.Sprintf("subsel_%d", ctx.Id())
+	id := fmt.Sprintf("fp_subsel_%d", ctx.Id())
 	withMain := sql.NewWith(main, id)
 	filterPlanner := &LabelFilterPlanner{
 		Expr: s.Expr,
